@@ -442,7 +442,12 @@ impl Deb822 {
             } else {
                 paragraph.1
             };
+            // the last paragraph of a file may lack its final newline; it need not be last any more
+            let unterminated = !new_paragraph.0.text().to_string().ends_with('\n');
             inject(&mut builder, new_paragraph.0);
+            if unterminated {
+                builder.token(NEWLINE.into(), "\n");
+            }
         }
 
         let mut last_kind = None;
